@@ -31,6 +31,7 @@ type c18Obs struct {
 	ParamInt      int
 	ParamInt64    int64
 	Cookie        string
+	Unstable      bool
 	pan           interface{}
 }
 
@@ -53,6 +54,13 @@ func c18Build() *c18World {
 		o.Float, o.FloatD = c.QueryFloat64("k"), c.QueryFloat64("k", 7.5)
 		o.Param, o.ParamInt, o.ParamInt64 = c.Param("x"), c.ParamInt("x"), c.ParamInt64("x")
 		o.Cookie = c.Cookie("ck")
+		// reading again within the same request must give the same answers
+		for rep := 0; rep < 2; rep++ {
+			if c.Cookie("ck") != o.Cookie || c.Query("k") != o.Query || c.QueryInt("k", 77) != o.IntD || c.Param("x") != o.Param ||
+				c.QueryUnescape("k") != o.Unesc || c.QueryTrim("k", "DEF") != o.TrimD {
+				o.Unstable = true
+			}
+		}
 	}
 	w.f.Get("/p/{x}", h)
 	w.f.Get("/q", h)
@@ -84,6 +92,9 @@ func c18Query(w *c18World, raw string, absent bool) (bad, kind, class string) {
 	}()
 	if pan != nil {
 		return fmt.Sprintf("panicked: %v", pan), "panic", ""
+	}
+	if w.obs.Unstable {
+		return "reading the same accessor again within one request gives a different answer", "repeated-read", ""
 	}
 	vals, _ := url.ParseQuery(req.URL.RawQuery)
 	list, inMap := vals["k"]
@@ -157,6 +168,9 @@ func c18Param(w *c18World, raw string) (bad, kind, class string) {
 	if pan != nil {
 		return fmt.Sprintf("panicked: %v", pan), "panic", ""
 	}
+	if w.obs.Unstable {
+		return "reading the same accessor again within one request gives a different answer", "repeated-read", ""
+	}
 	want := decode1(raw)
 	o := w.obs
 	ai, _ := strconv.Atoi(want)
@@ -190,6 +204,9 @@ func c18CookieRead(w *c18World, raw string, absent bool) (bad, kind, class strin
 	if pan != nil {
 		return fmt.Sprintf("panicked: %v", pan), "panic", ""
 	}
+	if w.obs.Unstable {
+		return "reading the same cookie again within one request gives a different answer", "repeated-read", ""
+	}
 	want := ""
 	if ck, err := req.Cookie("ck"); err == nil {
 		want = ck.Value
@@ -211,7 +228,12 @@ func c18RoundTrip(value string) (bad string) {
 	f := flamego.NewWithLogger(io.Discard)
 	got := "\x00unset"
 	f.Get("/set", func(c flamego.Context) { c.SetCookie(http.Cookie{Name: "ck", Value: value, Path: "/"}) })
-	f.Get("/get", func(c flamego.Context) { got = c.Cookie("ck") })
+	f.Get("/get", func(c flamego.Context) {
+		got = c.Cookie("ck")
+		if again := c.Cookie("ck"); again != got {
+			got = "\x00second read differs: " + again
+		}
+	})
 	return c18RoundTripOn(f, &got, value)
 }
 
@@ -290,7 +312,12 @@ func c18Run(r *core.Run) {
 		got := ""
 		var cur string
 		f.Get("/set", func(c flamego.Context) { c.SetCookie(http.Cookie{Name: "ck", Value: cur, Path: "/"}) })
-		f.Get("/get", func(c flamego.Context) { got = c.Cookie("ck") })
+		f.Get("/get", func(c flamego.Context) {
+			got = c.Cookie("ck")
+			if again := c.Cookie("ck"); again != got {
+				got = "\x00second read differs: " + again
+			}
+		})
 		if w == 0 {
 			l.States += 2
 		}
